@@ -18,6 +18,7 @@
 //!   `verif_harness::xlsw`, the SST + CONTINUE records being the Lean encoder's) with LABELSST cells for every
 //!   string, inline LABEL cells, FORMULA + STRING results and sheet names taken from the table; read through
 //!   `Xls::new` / `sheet_names` / `worksheet_range` and compared with the stored text.
+#[cfg(feature = "hooks")]
 use calamine::verif_hooks::xls as hooks;
 use calamine::{Data, Reader, Xls};
 use std::sync::mpsc;
@@ -484,7 +485,12 @@ fn canon_strings(ss: &[String]) -> String {
     format!("ok {} {}", ss.len(), ss.iter().map(|s| hexs(s.as_bytes())).collect::<Vec<_>>().join(":"))
 }
 
-fn impl_sst(stream: &[u8]) -> String {
+/// the strings of an SST + CONTINUE record sequence. With the hooks: `RecordIter` + `parse_sst` directly
+/// (`n` unused). Built without them (`--no-default-features`, what ./check falls back to when a hooked private
+/// signature changed): the records become the SST of a generated workbook whose sheet names entry `i` in a
+/// LABELSST cell at row `i` for `i < n`; the workbook is read with the public API (`Xls::new`, `worksheet_range`).
+#[cfg(feature = "hooks")]
+fn impl_sst(stream: &[u8], _n: usize) -> String {
     match guarded(|| hooks::sst_from_stream(stream, 1200)) {
         Ok(Ok(ss)) => canon_strings(&ss),
         Ok(Err(e)) => canon_err(&e),
@@ -492,10 +498,44 @@ fn impl_sst(stream: &[u8]) -> String {
     }
 }
 
+#[cfg(not(feature = "hooks"))]
+fn impl_sst(stream: &[u8], n: usize) -> String {
+    let mut rng = Rng::new(11);
+    let mut book = XlsBook::new();
+    book.sst_raw = Some(split_payloads(stream));
+    let mut sh = XlsSheet::new("S");
+    for i in 0..n.min(65535) {
+        sh.cells.push(XlsCell::new(i as u16, 0, CellV::LabelSst(i as u32)));
+    }
+    book.sheets.push(sh);
+    let bytes = book.to_bytes_plain(&mut rng);
+    let res = guarded(|| -> Result<Vec<Option<String>>, String> {
+        let mut wb: Xls<_> = Xls::new(std::io::Cursor::new(bytes)).map_err(|e| format!("{e:?}"))?;
+        let range = wb.worksheet_range("S").map_err(|e| format!("{e:?}"))?;
+        Ok((0..n.min(65535))
+            .map(|i| match range.get_value((i as u32, 0)) {
+                Some(Data::String(s)) => Some(s.clone()),
+                _ => None,
+            })
+            .collect())
+    });
+    match res {
+        Ok(Ok(cells)) => match cells.iter().position(|c| c.is_none()) {
+            // a cell without a string: the table is shorter than the cells that refer to it
+            Some(k) => canon_strings(&cells[..k].iter().map(|c| c.clone().unwrap()).collect::<Vec<_>>()),
+            None => canon_strings(&cells.into_iter().map(|c| c.unwrap()).collect::<Vec<_>>()),
+        },
+        Ok(Err(e)) => canon_err(&e),
+        Err(_) => "panic".into(),
+    }
+}
+
+#[cfg(feature = "hooks")]
 fn show_frags(fs: &[Vec<u8>]) -> String {
     fs.iter().map(|f| hexs(f)).collect::<Vec<_>>().join("/")
 }
 
+#[cfg(feature = "hooks")]
 fn impl_recs(stream: &[u8]) -> String {
     match guarded(|| hooks::c12_records(stream)) {
         Ok(Ok(rs)) => format!("ok {}", rs.iter().map(|(t, f)| format!("{t}={}", show_frags(f))).collect::<Vec<_>>().join(",")),
@@ -504,6 +544,7 @@ fn impl_recs(stream: &[u8]) -> String {
     }
 }
 
+#[cfg(feature = "hooks")]
 fn impl_skip(stream: &[u8], n: usize) -> String {
     match guarded(|| hooks::c12_skip(stream, n)) {
         Ok(Ok(fs)) => format!("ok {}", show_frags(&fs)),
@@ -512,6 +553,7 @@ fn impl_skip(stream: &[u8], n: usize) -> String {
     }
 }
 
+#[cfg(feature = "hooks")]
 fn impl_str(kind: &str, payload: &[u8], biff8: bool) -> String {
     let r = guarded(|| {
         if kind == "short" {
@@ -631,7 +673,7 @@ fn run_case(line: &str, drv: &mut Driver) -> Outcome {
     let wellformed = t.iter().all(|e| String::from_utf16(&e.units).is_ok());
     let texts: Vec<String> = t.iter().map(|e| String::from_utf16_lossy(&e.units)).collect();
     let expect = canon_strings(&texts);
-    let imp = impl_sst(&stream);
+    let imp = impl_sst(&stream, t.len());
     o.impl_out = imp.clone();
     o.stream = stream.clone();
     let cuts: usize = ls.iter().map(|l| l.cuts.len() + l.run_cuts.len() + l.ext_cuts.len() + l.cut_before as usize).sum();
@@ -678,12 +720,31 @@ fn run_case(line: &str, drv: &mut Driver) -> Outcome {
 fn run_raw(line: &str, drv: &mut Driver, expect: Option<&str>) -> Outcome {
     let mut o = Outcome { input: line.to_string(), ..Default::default() };
     let w: Vec<&str> = line.split_whitespace().collect();
+    #[cfg(feature = "hooks")]
     let imp = match w.as_slice() {
-        ["dec", h] => impl_sst(&unhex(h)),
+        ["dec", h] => impl_sst(&unhex(h), 0),
         ["recs", h] => impl_recs(&unhex(h)),
         ["skip", n, h] => impl_skip(&unhex(h), n.parse().unwrap_or(0)),
         ["short", b, h] => impl_str("short", &unhex(h), *b == "1"),
         ["str", b, h] => impl_str("str", &unhex(h), *b == "1"),
+        _ => {
+            o.fail("model_vs_spec", "bad-replay-line", "", "", "");
+            return o;
+        }
+    };
+    // without the hooks only the cases that carry an expectation (a well-formed SST / XLUnicodeString) can be
+    // driven through a generated workbook: the SST by LABELSST cells, the BIFF8 string as a LABEL cell
+    #[cfg(not(feature = "hooks"))]
+    let imp = match (w.as_slice(), expect) {
+        (["dec", h], Some(e)) => {
+            let n = e.split(' ').nth(1).and_then(|x| x.parse().ok()).unwrap_or(0);
+            impl_sst(&unhex(h), n)
+        }
+        (["str", "1", h], Some(_)) => label_via_file(&unhex(h)),
+        (["dec", _], None) | (["recs", _], _) | (["skip", _, _], _) | (["short", _, _], _) | (["str", _, _], _) => {
+            o.count("skipped.hooks_unavailable");
+            return o;
+        }
         _ => {
             o.fail("model_vs_spec", "bad-replay-line", "", "", "");
             return o;
@@ -719,6 +780,7 @@ fn run_raw(line: &str, drv: &mut Driver, expect: Option<&str>) -> Outcome {
             o.fail("model_vs_spec", kind, &imp, &model, e);
         }
     }
+    #[cfg(feature = "hooks")]
     if imp == "panic" && kind == "dec" {
         // malformed stream: not in C12's quantifier, but a panic escaping the reader is the C06 overlap (D31-b)
         let sig = format!("malformed_stream_panic:{}", panic_site(&unhex(w[1])));
@@ -727,6 +789,33 @@ fn run_raw(line: &str, drv: &mut Driver, expect: Option<&str>) -> Outcome {
     o
 }
 
+/// an XLUnicodeString payload as the value of a LABEL cell of a generated workbook, read with the public API
+#[cfg(not(feature = "hooks"))]
+fn label_via_file(payload: &[u8]) -> String {
+    let mut rng = Rng::new(12);
+    let mut book = XlsBook::new();
+    let mut sh = XlsSheet::new("S");
+    let mut d = verif_harness::xlsw::cell_hdr(0, 0, 0);
+    d.extend_from_slice(payload);
+    sh.cells.push(XlsCell::raw(verif_harness::xlsw::LABEL, d));
+    book.sheets.push(sh);
+    let bytes = book.to_bytes_plain(&mut rng);
+    let res = guarded(|| -> Result<String, String> {
+        let mut wb: Xls<_> = Xls::new(std::io::Cursor::new(bytes)).map_err(|e| format!("{e:?}"))?;
+        let range = wb.worksheet_range("S").map_err(|e| format!("{e:?}"))?;
+        match range.get_value((0, 0)) {
+            Some(Data::String(s)) => Ok(s.clone()),
+            other => Err(format!("cell {other:?}")),
+        }
+    });
+    match res {
+        Ok(Ok(s)) => format!("ok {}", hexs(s.as_bytes())),
+        Ok(Err(e)) => canon_err(&e),
+        Err(_) => "panic".into(),
+    }
+}
+
+#[cfg(feature = "hooks")]
 fn panic_site(stream: &[u8]) -> String {
     let msg = match guarded(|| hooks::sst_from_stream(stream, 1200)) {
         Err(m) => m,
@@ -1643,6 +1732,12 @@ fn corpus() -> Vec<(String, Option<String>)> {
 
 /// stage E: the Workbook / Book stream of every .xls fixture of the repo, through `dec` (impl vs model on
 /// string tables written by Excel / LibreOffice and friends)
+#[cfg(not(feature = "hooks"))]
+fn fixture_streams() -> Vec<(String, Vec<u8>)> {
+    vec![] // needs `verif_hooks::cfb::Cfb` to pull the Workbook stream out of the container
+}
+
+#[cfg(feature = "hooks")]
 fn fixture_streams() -> Vec<(String, Vec<u8>)> {
     let mut out = vec![];
     let mut paths: Vec<_> = match std::fs::read_dir("/repo/tests") {
@@ -2022,6 +2117,15 @@ fn main() {
         h.join().expect("worker thread");
     }
     rep.add("tables_x8_layouts", tables);
+    #[cfg(not(feature = "hooks"))]
+    rep.notes.push(
+        "C12 built WITHOUT verif-hooks (a hooked private signature of /repo changed): stage A reads every SST layout through a generated \
+         workbook (LABELSST cell per string, Xls::new / worksheet_range) instead of the sst_from_stream hook; `counts` and the BIFF8 \
+         parse_string cases that carry an expectation go through generated workbooks too; stages D, F, G, H (public API) run unchanged; \
+         skipped (counter skipped.hooks_unavailable): stage B correspondence on malformed / illegal-record streams (dec without \
+         expectation, recs, skip), the short-string and BIFF5 string payloads of stage C, stage E (fixture Workbook streams)"
+            .into(),
+    );
     rep.notes.push(
         "C12: encoding_rs (UTF-16LE code units -> text) and the codepage crate are exercised, not modelled; only code page 1200 (BIFF8) is covered"
             .into(),
